@@ -136,6 +136,23 @@ func c12Run(c *fw.Ctx) fw.Outcome {
 		b.Items = append([]*astisub.Item(nil), bItems...)
 		db = c12Defs{map[string]*astisub.Region{}, map[string]*astisub.Style{}}
 	}
+	// the caller may have renamed one of B's definitions (e.g. to avoid a clash) without re-keying B's maps:
+	// the identifier of a definition is its ID
+	renamedR, renamedS := "", ""
+	if r.P(1, 6) {
+		for k, v := range b.Regions {
+			if _, clash := da.regions["renamed-"+k]; !clash {
+				v.ID = "renamed-" + k
+				renamedR = k
+			}
+			break
+		}
+		for k, v := range b.Styles {
+			v.ID = "renamed-" + k
+			renamedS = k
+			break
+		}
+	}
 	bSnapItems := append([]*astisub.Item(nil), b.Items...)
 	bSnap := c12Desc(b.Items)
 	bRegions, bStyles := map[string]*astisub.Region{}, map[string]*astisub.Style{}
@@ -153,11 +170,23 @@ func c12Run(c *fw.Ctx) fw.Outcome {
 		return fw.Bad(key, nil, "Merge: A=%s B=%s gives %s, ordered union is %s", c12Desc(aItems), c12Desc(bItems), c12Desc(a.Items), c12Desc(exp))
 	}
 	// unions, A wins
+	if renamedR != "" {
+		if got := a.Regions["renamed-"+renamedR]; got != bRegions[renamedR] {
+			return fw.Bad(key, nil, "Merge: B's region with ID %q (stored under key %q in B) is not in A under its identifier", "renamed-"+renamedR, renamedR)
+		}
+		delete(a.Regions, "renamed-"+renamedR)
+	}
+	if renamedS != "" {
+		if got := a.Styles["renamed-"+renamedS]; got != bStyles[renamedS] {
+			return fw.Bad(key, nil, "Merge: B's style with ID %q (stored under key %q in B) is not in A under its identifier", "renamed-"+renamedS, renamedS)
+		}
+		delete(a.Styles, "renamed-"+renamedS)
+	}
 	for _, id := range ids {
 		var wantR *astisub.Region
 		if v, ok := da.regions[id]; ok {
 			wantR = v
-		} else if v, ok := db.regions[id]; ok {
+		} else if v, ok := db.regions[id]; ok && id != renamedR {
 			wantR = v
 		}
 		if got := a.Regions[id]; got != wantR {
@@ -166,7 +195,7 @@ func c12Run(c *fw.Ctx) fw.Outcome {
 		var wantS *astisub.Style
 		if v, ok := da.styles[id]; ok {
 			wantS = v
-		} else if v, ok := db.styles[id]; ok {
+		} else if v, ok := db.styles[id]; ok && id != renamedS {
 			wantS = v
 		}
 		if got := a.Styles[id]; got != wantS {
@@ -236,6 +265,48 @@ func c12CLI(c *fw.Ctx) fw.Outcome {
 	return fw.OK(key, map[string]interface{}{"cli": "merge", "A": fmtCues(a), "B": fmtCues(b)})
 }
 
+// c12CLIDefs: the CLI's merge keeps the union of the definitions, referenced or not
+func c12CLIDefs(c *fw.Ctx) fw.Outcome {
+	mk := func(prefix string, shared bool) string {
+		ids := []string{prefix + "1", prefix + "2"}
+		if shared {
+			ids = append(ids, "common")
+		}
+		var b strings.Builder
+		b.WriteString(`<tt xmlns="http://www.w3.org/ns/ttml" xmlns:tts="http://www.w3.org/ns/ttml#styling"><head><styling>`)
+		for _, id := range ids {
+			fmt.Fprintf(&b, `<style xml:id="s%s" tts:color="%s"/>`, id, prefix)
+		}
+		b.WriteString(`</styling><layout>`)
+		for _, id := range ids {
+			fmt.Fprintf(&b, `<region xml:id="r%s" tts:extent="10%% 10%%"/>`, id)
+		}
+		fmt.Fprintf(&b, `</layout></head><body><div><p begin="00:00:0%d.000" end="00:00:09.000" style="s%s1">%s</p></div></body></tt>`, c.R.Range(1, 5), prefix, prefix)
+		return b.String()
+	}
+	ina, inb := filepath.Join(c.TmpDir(), "a.ttml"), filepath.Join(c.TmpDir(), "b.ttml")
+	out := filepath.Join(c.TmpDir(), "out.ttml")
+	os.WriteFile(ina, []byte(mk("A", true)), 0o644)
+	os.WriteFile(inb, []byte(mk("B", true)), 0o644)
+	os.Remove(out)
+	if msg, err := cli("merge", "-i", ina, "-i", inb, "-o", out); err != nil {
+		return fw.Bad(0xc12d, nil, "CLI merge of two TTML documents failed: %v %s", err, msg)
+	}
+	got, err := astisub.OpenFile(out)
+	if err != nil {
+		return fw.Bad(0xc12d, nil, "CLI merge output unreadable: %v", err)
+	}
+	want := "sA1,sA2,sB1,sB2,scommon"
+	if keysOf(got.Styles) != want || keysOf(got.Regions) != strings.ReplaceAll(want, "s", "r") {
+		return fw.Bad(0xc12d, nil, "CLI merge of two TTML documents: styles {%s} regions {%s}, the union of the definitions is {%s}", keysOf(got.Styles), keysOf(got.Regions), want)
+	}
+	if st := got.Styles["scommon"]; st == nil || st.InlineStyle == nil || st.InlineStyle.TTMLColor == nil || *st.InlineStyle.TTMLColor != "A" {
+		return fw.Bad(0xc12d, nil, "CLI merge: on an identifier clash the first document's definition must win")
+	}
+	c.Count("cli_merge_definition_runs", 1)
+	return fw.OK(0xc12d, "cli merge of TTML documents with unreferenced definitions")
+}
+
 func init() {
 	libN := func(tier string) int64 { return tierN(tier, 40000, 1500000) }
 	cliN := func(tier string) int64 { return tierN(tier, 24, 200) }
@@ -254,6 +325,9 @@ func init() {
 				return fw.Skip()
 			}
 			c.Feature("cli merge")
+			if c.Idx%4 == 3 {
+				return c12CLIDefs(c)
+			}
 			return c12CLI(c)
 		},
 	})
